@@ -1076,7 +1076,7 @@ def run(ctx):
         cases.append(gen_reassign_case(rng, (TWO + KER + THREE)[k % 7]))  # state re-assigned mid-run, every trainer class
     for k in range(n_group):
         # every trainer class in turn, so that each of the seven is exercised with overrides in every run
-        cases += gen_group(rng, gid, (TWO + KER + THREE)[k % 7], persample=bool((k // 7) % 2))   # both signal forms in turn
+        cases += gen_group(rng, gid, (TWO + KER + THREE)[k % 7], persample=(k // 7) % 2 == 0)   # both signal forms in turn
         gid += 1
     for _ in range(n_pair):
         what, a, b = gen_pair(rng)
